@@ -63,10 +63,11 @@ const (
 	ErrAfter            // effect applied, error returned
 	CrashBefore         // process dies before the call takes effect
 	CrashAfter          // process dies after the call took effect, before the reply
+	NotFound            // 404, no effect: a read answered by a cache that has not seen the object (yet / any more), or a kind that is not served at the moment
 )
 
 func (o Outcome) String() string {
-	return [...]string{"ok", "error-before", "conflict", "error-after", "crash-before", "crash-after"}[o]
+	return [...]string{"ok", "error-before", "conflict", "error-after", "crash-before", "crash-after", "not-found"}[o]
 }
 
 // Call describes one API call.
